@@ -8,7 +8,7 @@
 (*                                                                         *)
 (* Decision table (BUILDING.md pattern B).                                  *)
 (*   input  in = [tab, level, place, early, q, r, lists, client, ehlo, mf,  *)
-(*                group]                                                    *)
+(*                group, second]                                            *)
 (*     level  "pipeline": the module is configured from configuration text *)
 (*            inside a real msgpipeline; the connection is announced with   *)
 (*            RunEarlyChecks (as endpoint/smtp does at EHLO), then one      *)
@@ -38,11 +38,14 @@
 (*            the client spells dom with U-labels (SMTPUTF8)                *)
 (*     group  block lists with identical directives are written as one      *)
 (*            block with several zone names                                 *)
-(*   output out = [action, stage, code, queries]                            *)
+(*     second a second message on the same connection after the first one:  *)
+(*            "none", "same" (same MAIL FROM), "null" (null reverse-path)   *)
+(*   output out = [action, stage, code, queries, action2]                   *)
 (*     action  "none", "quarantine" (message delivered with the quarantine  *)
 (*             flag), "permreject" (5xx), "tempreject" (4xx)                *)
 (*     stage   where the refusal happened: "conn" (RunEarlyChecks), "mail", *)
 (*             "rcpt", "body"; "none" when nothing was refused              *)
+(*     action2 the action for the second message ("n/a": there was none)    *)
 (*     queries set of [t, q]: t = "addr" / "txt", q = the queried name in   *)
 (*             canonical form (lower case, A-labels, no trailing dot)       *)
 (*                                                                         *)
@@ -164,18 +167,27 @@ Claimed(i) == ~(i.early /\ i.place # "global")
 
 -----------------------------------------------------------------------------
 (* The property, one named predicate per clause of the statement. *)
-P_NoCrash(i, o) == o.action # "panic"
+P_NoCrash(i, o) == o.action # "panic" /\ o.action2 # "panic"
 P_OnlyDocumentedQueries(i, o) == o.queries \subseteq Documented(i)
-P_Decision(i, o) == (Claimed(i) /\ ~AnyTemp(i)) => o.action \in Band(i, Decide(i, Score(i)))
+MfNullC == [local |-> "", dom |-> "", canon |-> "", utf8 |-> FALSE]
+(* the row as the second message of the connection sees it *)
+Msg2(i) == [i EXCEPT !.mf = IF i.second = "null" THEN MfNullC ELSE i.mf]
+(* (a check of a source block does not apply to a message of another sender) *)
+InScope2(i) == ~(i.place = "source" /\ i.second = "null")
+HasSecond(i, o) == i.second # "none" /\ o.action2 # "n/a" /\ InScope2(i)
+DecisionOK(i, a) == (Claimed(i) /\ ~AnyTemp(i)) => a \in Band(i, Decide(i, Score(i)))
+(* every message of the connection is decided on its own identities *)
+P_Decision(i, o) == DecisionOK(i, o.action) /\ (HasSecond(i, o) => DecisionOK(Msg2(i), o.action2))
 (* a temporary failure is not a listing: the message is refused temporarily, *)
 (* or decided as if the failing list's lookup had found nothing             *)
 TempScores(i) ==
   LET F == {k \in DOMAIN i.lists : HasTemp(i, i.lists[k])}
       sure == ListedSet(i) \ F
   IN {SumOver(i, sure \cup T, 1) : T \in SUBSET (ListedSet(i) \cap F)}
-P_TempNotListing(i, o) ==
+TempOK(i, a) ==
   (Claimed(i) /\ AnyTemp(i)) =>
-     o.action \in {"tempreject"} \cup UNION {Band(i, Decide(i, s)) : s \in TempScores(i)}
+     a \in {"tempreject"} \cup UNION {Band(i, Decide(i, s)) : s \in TempScores(i)}
+P_TempNotListing(i, o) == TempOK(i, o.action) /\ (HasSecond(i, o) => TempOK(Msg2(i), o.action2))
 (* check_early refuses at the connection stage, before MAIL; without it the  *)
 (* refusal belongs to the message (where logging and defer_sender_reject apply) *)
 P_Stage(i, o) ==
@@ -227,7 +239,7 @@ SumRes(devs, i, ev, k) ==
   IF k > Len(i.lists) THEN 0
   ELSE (IF ev[k].res = "listed" THEN ScoreOfD(devs, i.lists[k]) ELSE 0) + SumRes(devs, i, ev, k + 1)
 
-RuleD(devs, i) ==
+RuleMsg(devs, i) ==
   (* check_early in a source / destination block is documented not to work:  *)
   (* early checks are run for the top-level check block only                  *)
   IF i.place # "global" /\ ("ScopedNoop" \in devs \/ i.early)
@@ -246,10 +258,21 @@ RuleD(devs, i) ==
     IN [action |-> act, stage |-> stg,
         code |-> CASE act = "permreject" -> 554 [] act = "tempreject" -> 451 [] OTHER -> 0,
         queries |-> qs]
+(* the connection: the first message, then (unless the connection was refused) *)
+(* the second one, decided by the same procedure on its own MAIL FROM          *)
+RuleD(devs, i) ==
+  LET r1 == RuleMsg(devs, i)
+      two == i.second # "none" /\ i.level = "pipeline" /\ r1.stage # "conn"
+      r2 == IF InScope2(i) THEN RuleMsg(devs, Msg2(i))
+            ELSE [action |-> "none", stage |-> "none", code |-> 0, queries |-> {}]
+  IN [action |-> r1.action, stage |-> r1.stage, code |-> r1.code,
+      queries |-> r1.queries \cup (IF two THEN r2.queries ELSE {}),
+      action2 |-> IF two THEN r2.action ELSE "n/a"]
 Rule(i) == RuleD({}, i)
 AsIs(i) == RuleD(Devs, i)
 
-SameOut(a, b) == a.action = b.action /\ a.stage = b.stage /\ a.code = b.code /\ a.queries = b.queries
+SameOut(a, b) == /\ a.action = b.action /\ a.stage = b.stage /\ a.code = b.code /\ a.queries = b.queries
+                 /\ a.action2 = b.action2
 Explains(devSets, i, o) == {D \in devSets : SameOut(o, RuleD(D, i))}
 
 -----------------------------------------------------------------------------
@@ -298,11 +321,12 @@ FixAns(l, ehlo, mf) ==
 Row(tab, level, place, early, q, r, lists, client, ehlo, mf) ==
   [tab |-> tab, level |-> level, place |-> place, early |-> early, q |-> q, r |-> r,
    lists |-> [k \in DOMAIN lists |-> FixAns(lists[k], ehlo, mf)],
-   client |-> client, ehlo |-> ehlo, mf |-> mf, group |-> FALSE]
+   client |-> client, ehlo |-> ehlo, mf |-> mf, group |-> FALSE, second |-> "none"]
 (* "Using multiple arguments is equivalent to specifying the same configuration *)
 (* separately for each list": block lists with identical directives are written *)
 (* as one block with several zone names                                         *)
 Grouped(r) == [r EXCEPT !.group = TRUE]
+WithSecond(r, s) == [r EXCEPT !.second = s]
 
 (* (a) score table: IPv4 lists with every score, listed or not, every pair of thresholds *)
 ScoreVals(n) == IF n <= 2 THEN {NotGiven, Given(0), Given(1), Given(2), Given(5), Given(0 - 1), Given(0 - 2)}
@@ -431,6 +455,15 @@ InGroup ==
                    c, EhloDom, MfDom)
       IN in = IF g THEN Grouped(r) ELSE r
 
+(* (g3) two messages on one connection *)
+InSecond ==
+  \E s \in {"same", "null"}, early \in BOOLEAN, mfl \in YesNo, sc \in {Given(1), Given(2)},
+     p \in Patterns \cup {<<"temp", "nx", "nx">>, <<"nx", "nx", "temp">>, <<"in", "nx", "temp">>} :
+    in = WithSecond(Row("second", "pipeline", "global", early, Given(1), Given(2),
+                        <<Block(Zones[1], "yes", "no", "no", mfl, sc, DefResp,
+                                Ans(OfKind(p[1]), OfKind(p[2]), OfKind(p[3])))>>,
+                        C4, EhloDom, MfDom), s)
+
 (* (h) mixed table: Seed-dependent rows that cross every dimension of the    *)
 (* tables above (1-3 lists of either form with drawn flags, scores, filters  *)
 (* and answers for the three names; drawn identities, thresholds, level,     *)
@@ -466,7 +499,8 @@ RandRow(n) ==
       id == IF pl = "global" THEN Pick(RIdents, Draw(n, 4)) ELSE <<EhloDom, MfDom>>
       r  == Row("mixed", lv, pl, lv = "pipeline" /\ Draw(n, 5) % 2 = 0, Pick(RQ, Draw(n, 6)), Pick(RR, Draw(n, 7)),
                 [j \in 1..nl |-> RList(n, j)], Pick(RClients, Draw(n, 8)), id[1], id[2])
-  IN IF Draw(n, 9) % 2 = 0 THEN Grouped(r) ELSE r
+      g  == IF Draw(n, 9) % 2 = 0 THEN Grouped(r) ELSE r
+  IN IF lv = "pipeline" THEN WithSecond(g, Pick(<<"none", "none", "same", "null">>, Draw(n, 10))) ELSE g
 InMixed == \E n \in 1..RandN : in = RandRow(n)
 
 (* what the harness serves: the answers at the names this specification      *)
@@ -481,7 +515,7 @@ ZoneOf(i) ==
   IN cat(1)
 
 -----------------------------------------------------------------------------
-Init == InScore \/ InKinds \/ InFilter \/ InTemp \/ InAddr \/ InPlace \/ InDefaults \/ InGroup \/ InMixed
+Init == InScore \/ InKinds \/ InFilter \/ InTemp \/ InAddr \/ InPlace \/ InDefaults \/ InGroup \/ InSecond \/ InMixed
 Next == FALSE /\ UNCHANGED in      \* one state per input (CHECK_DEADLOCK FALSE)
 Spec == Init /\ [][Next]_vars
 
@@ -492,6 +526,8 @@ RuleSatisfiesProp == Prop(in, Rule(in))
 (* client, and the rule asks exactly for documented names                   *)
 RuleIsScoreSum ==
   /\ (Claimed(in) /\ ~AnyTemp(in)) => Rule(in).action = Decide(in, Score(in))
+  /\ (Claimed(in) /\ ~AnyTemp(Msg2(in)) /\ Rule(in).action2 # "n/a" /\ InScope2(in)) =>
+        Rule(in).action2 = Decide(in, Score(Msg2(in)))
   /\ Rule(in).queries \subseteq Documented(in)
   /\ (Claimed(in) /\ ~AnyTemp(in) /\ ListedSet(in) = {}) =>
         {x \in Documented(in) : x.t = "addr"} \subseteq Rule(in).queries
